@@ -18,7 +18,7 @@ def run(v):
     if not proof_ok:
         v.violation("C07/proof-broken", "; ".join(problems),
                     {"theorem_or_correspondence": "Properties/C07.v", "problems": problems}, found_input=False)
-    S.store_phase(v, PID, "c07", 70, 2500, ("store_run", "store_inv_ok"), ("C07/",), classify)
+    S.store_phase(v, PID, "c07", 40, 2500, ("store_run", "store_inv_ok"), ("C07/",), classify)
 
 
 def replay(v, path):
